@@ -4,7 +4,7 @@
    for d >= 3 beyond simplices and boxes (no volume theory for polytopes in the installed libraries). *)
 From Coq Require Import Reals QArith Qabs Qminmax List Bool Arith.
 From DV Require Import Base.QVec Run.Verdict Model.Bary Model.Range Model.Sampling Model.Scaling Model.Metrics
-                       Proofs.MetricsP Proofs.MetricsFast Proofs.FractionP Proofs.JsR.
+                       Proofs.MetricsP Proofs.MetricsFast Proofs.FractionP Proofs.VolumeP Proofs.JsR.
 Import ListNotations.
 Open Scope Q_scope.
 
@@ -70,6 +70,27 @@ Theorem estimator_fraction_run : forall c : fcase, fverdict c = true ->
   Qabs (spec - f_impl c) <= f_tol c + f_tol c * Qabs spec /\ 0 < f_impl c /\ spec <= 1.
 Proof. exact fverdict_sound. Qed.
 Print Assumptions estimator_fraction_run.
+
+(* ---- the exact reference volumes (polygon area, simplex volume, box): translation invariant, homogeneous of degree d ---- *)
+Theorem polygon_area_translation_invariant : forall (V : mat) (t : vec), Forall (fun p => length p = 2%nat) V -> length t = 2%nat ->
+  polygon_area (map (fun p => vadd p t) V) == polygon_area V.
+Proof. exact polygon_area_translate. Qed.
+Print Assumptions polygon_area_translation_invariant.
+Theorem polygon_area_homogeneous : forall (V : mat) (s : Q), polygon_area (map (vscale s) V) == s * s * polygon_area V.
+Proof. exact polygon_area_scale. Qed.
+Print Assumptions polygon_area_homogeneous.
+Theorem simplex_volume_translation_invariant : forall (S : mat) (t : vec), Forall (fun p => length p = length t) S ->
+  simplex_vol (map (fun p => vadd p t) S) == simplex_vol S.
+Proof. exact simplex_vol_translate. Qed.
+Print Assumptions simplex_volume_translation_invariant.
+Theorem simplex_volume_homogeneous : forall (S : mat) (s : Q) (d : nat), 0 <= s -> length S = Datatypes.S d -> Forall (fun p => length p = d) S ->
+  simplex_vol (map (vscale s) S) == s ^ (Z.of_nat d) * simplex_vol S.
+Proof. exact simplex_vol_scale. Qed.
+Print Assumptions simplex_volume_homogeneous.
+Theorem box_volume_laws : forall (lo hi t : vec) (s : Q), length lo = length t -> length hi = length t ->
+  box_vol (vadd lo t) (vadd hi t) == box_vol lo hi /\ box_vol (vscale s lo) (vscale s hi) == Qabs s ^ (Z.of_nat (length lo)) * box_vol lo hi.
+Proof. intros lo hi t s H1 H2. split; [apply box_vol_translate; assumption | apply box_vol_scale; congruence]. Qed.
+Print Assumptions box_volume_laws.
 
 (* ---- Jensen-Shannon divergence (over R) ---- *)
 Theorem js_symmetric : forall P Q, length P = length Q -> js P Q = js Q P.
